@@ -118,6 +118,12 @@ pub fn build_image(case: &Case) -> Result<Image, String> {
         Op::Batch((0..10usize.min(u.len())).map(|i| ((((i as u32) * 65536 + u.len() as u32 - 1) / u.len() as u32) as u16, None)).collect()),
         Op::Fill { start: ((12usize.min(u.len() - 1) as u32 * 65536 + u.len() as u32 - 1) / u.len() as u32) as u16, n: 6, val: v(40, false) },
         Op::Flush,
+        // the same at the upper end: the highest keys written and deleted again, so that merges end
+        // with a run of entries that is dropped entirely (no output file is open any more when a
+        // damaged block of that run is read)
+        Op::Fill { start: ((u.len().saturating_sub(8) as u32 * 65536 + u.len() as u32 - 1) / u.len() as u32) as u16, n: 8usize.min(u.len()) as u8, val: v(50, false) },
+        Op::Batch((u.len().saturating_sub(8)..u.len()).map(|i| ((((i as u32) * 65536 + u.len() as u32 - 1) / u.len() as u32) as u16, None)).collect()),
+        Op::Flush,
         Op::WaitIdle,
         Op::Put(1000, v(20, false)),
         Op::Put(30000, v(25, true)),
@@ -380,7 +386,14 @@ fn eval_inner(p: &CorruptPoint) -> Result<EvalInfo, (String, bool)> {
             allowed.insert(k.0.clone(), vec![model.get(&k.0).cloned()]);
         }
     }
-    let db = match DB::open(options(&fs, &img.cfg)) {
+    // Half of the table points re-open with a tiny output file size: every kept entry then closes
+    // its compaction output at once, so a read error in the middle of a compaction arrives while
+    // no output file is open (configuration changes between opens are legitimate).
+    let mut open_cfg = img.cfg;
+    if p.file.ends_with(".rdb") && mix(damage_at as u64, 77) % 2 == 0 {
+        open_cfg.file = 150;
+    }
+    let db = match DB::open(options(&fs, &open_cfg)) {
         Ok(db) => db,
         Err(_) => {
             info.open_failed = true;
